@@ -1,8 +1,49 @@
 (* C03 — Source routes: each route word steers from its source to exactly its destination, fully consumed.
    Part 1: the certified checker that is evaluated (extracted) on the netlist the REAL floogen emitted
    is sound for the semantic statement C03_on over the hardware model Hw.v. *)
-From FV Require Import Base RouteMap Netlist Hw Check CheckProofs.
+From FV Require Import Base RouteMap Graph Netlist Hw Check CheckProofs Desc Build Compile Routing Emit ModelProofs Paths Examples.
 
 Theorem C03_checker_sound : forall n, chk_C03 n = [] -> C03_on n.
 Proof. exact chk_C03_sound. Qed.
 Print Assumptions C03_checker_sound.
+
+(* Part 2: universal theorems over the generator model, for EVERY oracle (no shortest-path assumption is
+   needed here), every description and size:
+   - the word rendered for any node path through routers, consumed least-significant bits first with
+     clog2(#outputs) bits per router, visits exactly that path and leaves only zero bits;
+   - the route gen_route emits for a communicating pair is the word of the oracle's path, so it steers
+     from the source's first router to exactly the oracle path's end, and 0 <= word < 2^(bits of its hops);
+   - the emitted route type covers the bits of every emitted route. *)
+Definition C03_model_statement : Prop :=
+  (forall c path ps, ports_along c path = Ok ps -> path <> [] ->
+     src_walk (length ps) c (word_value ps) (hd "" path) = (path, 0)) /\
+  (forall sp c s t id ps, gen_route sp c s t = Ok (id, Some ps) ->
+     exists first inner, sp (c_graph c) (cn_name s) (cn_name t) = Some (first :: inner) /\
+       (inner <> [] -> src_walk (length ps) c (word_value ps) (hd "" inner) = (inner, 0)) /\
+       0 <= word_value ps < 2 ^ route_bits_of (id, Some ps)) /\
+  (forall sp c ri, d_algo (c_desc c) = SRC -> gen_routing_info sp c = Ok ri ->
+     forall e r, In e (ri_routes ri) -> In r (snd e) -> route_bits_of r <= ri_route_bits ri).
+
+Theorem C03_model_holds : C03_model_statement.
+Proof. exact (conj word_follows_path (conj gen_route_follows route_bits_cover)). Qed.
+Print Assumptions C03_model_holds.
+
+(* non-vacuity: on the SRC mesh example the route from cluster (0,0) to cluster (1,1) is rendered and
+   steers across two routers to its destination *)
+Example C03_nonvacuous :
+  match (do g <- Build.build (ex_mesh SRC); do c <- compile (ex_mesh SRC) g; Ok c) with
+  | Ok c => match find (fun n => str_eqb (cn_name n) "cluster_ni_0_0") (c_nis c),
+                  find (fun n => str_eqb (cn_name n) "cluster_ni_1_1") (c_nis c) with
+            | Some s, Some t =>
+                match gen_route sp_nx c s t with
+                | Ok (_, Some ps) => Nat.eqb (length ps) 3 &&
+                                     list_eqb_str (fst (src_walk (length ps) c (word_value ps) "router_0_0"))
+                                                  ["router_0_0"; "router_0_1"; "router_1_1"; "cluster_ni_1_1"] &&
+                                     (snd (src_walk (length ps) c (word_value ps) "router_0_0") =? 0)
+                | _ => false
+                end
+            | _, _ => false
+            end
+  | Err _ => false
+  end = true.
+Proof. vm_compute. reflexivity. Qed.
